@@ -12,6 +12,8 @@ import (
 	"os"
 	"strconv"
 	"strings"
+	"sync"
+	"sync/atomic"
 	"syscall"
 	"time"
 
@@ -66,6 +68,14 @@ import (
 // once the verdict is scripted the status cannot matter: model and oracle do not read it.  The validator (cfg.At(9))
 // is a closure of the harness (accepts unless the script says "rejected") or, for scripts without a rejected response,
 // the library's own sse.NoopValidator.
+//
+// A REJECTED response may be a stream the server keeps open (fourth element of a rejected step: 1 = quiet, 2 = a few bytes
+// and then quiet): its body does not end - Read blocks until the body is closed (and then fails, as net/http's bodies do)
+// or until the harness gives up.  Observed per such body, at the end of the call's log: how many Read calls it saw before
+// Connect returned, and whether Connect was still running when the patience (0.9 s, the same as for waits) had passed
+// since the response was handed to it - the harness then releases the body, so a Connect that waits for a rejected
+// body becomes the observation "stuck" and the run goes on to its return value.  The code returns from the validator's
+// error without reading the body (Close by defer), microseconds after RoundTrip: never stuck.
 //
 // Attempts may take time (cfg.At(7): RoundTrip / the end of the body sleep a few ms).  One-sided timing
 // observation, for every OnRetry that is followed by a request: the monotonic time from the end of the
@@ -341,6 +351,49 @@ type connRun struct {
 	retryAt            time.Time     // when that OnRetry call ended
 	retryWait          time.Duration // the wait it was handed
 	gaps               []val.V       // per OnRetry followed by a request: did at least the wait pass?
+
+	open   []*openBody    // the open bodies of rejected responses handed out in this call
+	opened chan *openBody // the same, for the watchdog of the call
+}
+
+// openBody is the body of a rejected response that stays open (see the head of the file).
+type openBody struct {
+	mu     sync.Mutex
+	prefix []byte
+	reads  atomic.Int64
+	once   sync.Once
+	gone   chan struct{} // closed by Close or by the harness
+	stuck  bool
+}
+
+var errOpenBodyGone = errors.New("read on a closed response body")
+
+func newOpenBody(kind uint64) *openBody {
+	b := &openBody{gone: make(chan struct{})}
+	if kind == 2 {
+		b.prefix = []byte(": hold on\n\n")
+	}
+	return b
+}
+func (b *openBody) release()     { b.once.Do(func() { close(b.gone) }) }
+func (b *openBody) Close() error { b.release(); return nil }
+func (b *openBody) Read(p []byte) (int, error) {
+	b.reads.Add(1)
+	select {
+	case <-b.gone:
+		return 0, errOpenBodyGone
+	default:
+	}
+	b.mu.Lock()
+	if len(b.prefix) > 0 && len(p) > 0 {
+		n := copy(p, b.prefix)
+		b.prefix = b.prefix[n:]
+		b.mu.Unlock()
+		return n, nil
+	}
+	b.mu.Unlock()
+	<-b.gone
+	return 0, errOpenBodyGone
 }
 
 type scriptBody struct {
@@ -470,6 +523,15 @@ func (r *connRun) RoundTrip(req *http.Request) (*http.Response, error) {
 		return nil, r.ctx.Err()
 	case 2:
 		r.reject = st.At(1).Num()
+		if k := st.At(3).Num(); k != 0 {
+			b := newOpenBody(k)
+			r.open = append(r.open, b)
+			select {
+			case r.opened <- b:
+			default:
+			}
+			return ok(st.At(2).Num(), b), nil
+		}
 		return ok(st.At(2).Num(), io.NopCloser(strings.NewReader(""))), nil
 	default:
 		return ok(st.At(5).Num(), &scriptBody{run: r, data: append([]byte{}, st.At(1).Bytes()...), ending: st.At(2),
@@ -561,7 +623,7 @@ func execConnect(in val.V) val.V {
 		defer release()
 		clear(lastBare)
 		bareAtReset = false
-		run := &connRun{steps: steps.Items(), ctx: ctx, cancel: cancel}
+		run := &connRun{steps: steps.Items(), ctx: ctx, cancel: cancel, opened: make(chan *openBody, 64)}
 		if cfg.At(4).Present() {
 			run.patience = cfg.At(4).At(0).Signed()
 		}
@@ -660,13 +722,39 @@ func execConnect(in val.V) val.V {
 				done <- conn.Connect()
 			}()
 			var ret error
-			select {
-			case ret = <-done:
-			case <-time.After(30 * time.Second):
-				cancel()
-				<-done
-				return []val.V{val.List(run.items), val.L(val.S("Connect did not return within 30 s")), val.List(run.gaps)}, false
+			var watch <-chan time.Time // runs while Connect holds the open body of a rejected response
+			var held *openBody
+			limit := time.After(30 * time.Second)
+		wait:
+			for {
+				select {
+				case ret = <-done:
+					break wait
+				case held = <-run.opened:
+					watch = time.After(connPatience)
+				case <-watch:
+					// Connect has had a rejected response for 0.9 s and is still running: stuck.  The body is released so
+					// that the call comes to an end.
+					held.stuck, watch = true, nil
+					held.release()
+				case <-limit:
+					cancel()
+					for _, b := range run.open {
+						b.release()
+					}
+					<-done
+					return []val.V{val.List(run.items), val.L(val.S("Connect did not return within 30 s")), val.List(run.gaps)}, false
+				}
 			}
+			for len(run.opened) > 0 {
+				<-run.opened
+			}
+			for _, b := range run.open {
+				seen := b.reads.Load() // Read calls begun before Connect returned
+				b.release()
+				run.items = append(run.items, val.L(val.N(3), val.Int(int(seen)), val.Bool(b.stuck)))
+			}
+			run.open = nil
 			if run.overrun {
 				return []val.V{val.List(run.items), val.L(), val.List(run.gaps)}, false
 			}
@@ -860,6 +948,18 @@ func connValidator(r *rng.R, c *Ctx, steps []val.V) val.V {
 	return val.Int(k)
 }
 
+// a rejected response: the verdict, the status, and what its body is - one that ends at once (an error page), or a
+// stream the server keeps open: quiet, or quiet after a few bytes
+func connRejected(r *rng.R, c *Ctx) val.V {
+	e, st := val.N(connErrIdx(r, c, 300)), connStatus(r, c)
+	open := r.Intn(16) // an open body costs a non-conforming Connect 0.9 s: one rejected response in eight
+	if open > 2 {
+		open = 0
+	}
+	c.Count(fmt.Sprintf("rejected-body:%d", open))
+	return val.L(val.N(2), e, st, val.Int(open))
+}
+
 func connAttempt(r *rng.R, c *Ctx, maxRetryMs int, bigRetry bool) val.V {
 	switch k := r.Intn(20); {
 	case k < 3:
@@ -870,7 +970,7 @@ func connAttempt(r *rng.R, c *Ctx, maxRetryMs int, bigRetry bool) val.V {
 		return val.L(val.N(1))
 	case k == 4:
 		c.Count("attempt:rejected")
-		return val.L(val.N(2), val.N(connErrIdx(r, c, 300)), connStatus(r, c))
+		return connRejected(r, c)
 	default:
 		c.Count("attempt:stream")
 		return connStream(r, connBody(r, maxRetryMs, bigRetry), c)
@@ -955,10 +1055,14 @@ func connCharacterSweep(c *Ctx) {
 			val.L(val.N(0), val.N(0)), val.Int(i%(connCtxKinds-1))), val.List(steps)))
 	}
 	for k := uint64(0); k < connErrKinds; k++ {
-		for _, bk := range bodies {
+		for bi, bk := range bodies {
 			emit(bk, val.L(val.N(0), val.N(1000*k+203)), after, last)
 			emit(bk, val.L(val.N(3), val.S("id: 5\ndata: x\n\ndata: cut"), val.L(val.N(1), val.N(1000*k+103)), val.L(), val.Bool(k%2 == 0)), after, last)
 			emit(bk, val.L(val.N(2), val.N(1000*k+303)), after, last)
+			// the same verdict on a response whose body stays open (quiet / after a few bytes)
+			if bi == int(k)%len(bodies) {
+				emit(bk, val.L(val.N(2), val.N(1000*k+303), val.N(200), val.N(1+k%2)), after, last)
+			}
 		}
 		// GetBody fails with this character at its first / second call
 		emit(val.L(val.N(4), val.N(0), val.N(1000*k+401)), val.L(val.N(0), val.N(201)), after, last)
@@ -1019,7 +1123,7 @@ func connStatusSweep(c *Ctx) {
 		c.Emit(val.L(val.L(bo, val.L(val.N(3), val.N(0), val.N(0)), val.Bool(i%4 != 0), val.L(), val.L(val.Z(connPatience)), val.Bool(false), val.Int(i%3),
 			val.L(val.N(0), val.N(0)), val.Int(i%(connCtxKinds-1)), val.Int(validator)), val.List(steps)))
 	}
-	for _, st := range connStatuses {
+	for si, st := range connStatuses {
 		for _, body := range []string{"", "id: 4\ndata: a\n\n", "data: cut"} {
 			first := val.L(val.N(3), val.S(body), val.L(val.N(0)), val.L(), val.Bool(false), val.N(st))
 			emit(0, first, after, last)
@@ -1027,6 +1131,12 @@ func connStatusSweep(c *Ctx) {
 		}
 		emit(0, val.L(val.N(2), val.N(302), val.N(st)), after, last)
 		emit(0, after, val.L(val.N(2), val.N(7302), val.N(st)), after)
+		// a rejected response whose body stays open
+		if si%4 == 0 {
+			emit(0, val.L(val.N(2), val.N(302), val.N(st), val.N(1)), after, last)
+		} else if si%4 == 2 {
+			emit(0, after, val.L(val.N(2), val.N(1302), val.N(st), val.N(2)), after)
+		}
 	}
 }
 
@@ -1108,7 +1218,7 @@ func connAgainScript(r *rng.R, c *Ctx, maxR int64) val.V {
 	switch k := r.Intn(12); {
 	case k < 2:
 		c.Count("again-call-ends:rejected")
-		steps = append(steps, val.L(val.N(2), val.N(connErrIdx(r, c, 300)), connStatus(r, c)))
+		steps = append(steps, connRejected(r, c))
 	case k == 2:
 		c.Count("again-call-ends:cancelled")
 		steps = append(steps, val.L(val.N(1)))
